@@ -367,8 +367,18 @@ def _lev(e):
     return 'LBase (%s)' % _ev(e[1])
 
 
-def lock_term(events):
-    return 'lobs (lrun WithFinally linit [%s])' % '; '.join(_lev(e) for e in events)
+def lock_term(events, res=None):
+    evs = []
+    eff = set(range(len(events))) if res is None else set(res.get('effective_finish', []))
+    for ei, e in enumerate(events):
+        if e[0] == 'finish' and e[2] == 'linkerr' and ei not in eff:
+            continue                    # nobody was inside the driver: nothing happened
+        if e[0] == 'finish' and e[2] == 'linkerr':
+            # the driver reports a link error from inside send_packet and drops the packet
+            evs += [['base', ['linkerr']], ['finish', e[1], 'driver']]
+        else:
+            evs.append(e)
+    return 'lobs (lrun WithFinally linit [%s])' % '; '.join(_lev(e) for e in evs)
 
 
 def lock_impl_obs(res):
@@ -403,6 +413,25 @@ def lock_fixed_scenarios():
     out.append([O, ['start', U(0)], ['acquire', 0], ['finish', 0, 'ok'], ['base', ['adv', 100]], ['base', ['expire', 0]],
                 ['start', U(5, exp=(9,))], ['acquire', 1], ['start', ['timer', 0]], ['base', ['linkerr']],
                 ['finish', 1, 'driver'], ['acquire', 2]])
+    # ---- things that happen WHILE the sender is parked inside the driver call
+    for tmo in (100, 50):
+        # (a) the matching reply is dispatched before the driver call returns (first send, and during a retransmission)
+        out.append([O, ['start', U(0, tmo=tmo)], ['acquire', 0], ['base', ['recv', 0x90, [7, 1]]], ['finish', 0, 'ok']])
+        out.append([O, ['start', U(0, tmo=tmo)], ['acquire', 0], ['finish', 0, 'ok'], ['base', ['adv', tmo]], ['base', ['expire', 0]],
+                    ['start', ['timer', 0]], ['acquire', 1], ['base', ['recv', 0x90, [7, 1]]], ['finish', 1, 'ok']])
+        # (b) the driver reports a link error from inside send_packet (RadioDriver on a full queue); a new session is
+        #     opened at once
+        out.append([O, ['start', U(0, tmo=tmo)], ['acquire', 0], ['finish', 0, 'linkerr'], O])
+        out.append([O, ['start', U(0, tmo=tmo)], ['acquire', 0], ['finish', 0, 'ok'], ['base', ['adv', tmo]], ['base', ['expire', 0]],
+                    ['start', ['timer', 0]], ['acquire', 1], ['finish', 1, 'linkerr'], O, ['start', U(1, exp=(9,))],
+                    ['acquire', 2], ['finish', 2, 'ok']])
+        # (c) the driver raises on the k-th retransmission
+        for k in (1, 2, 3):
+            evs = [O, ['start', U(0, tmo=tmo)], ['acquire', 0], ['finish', 0, 'ok']]
+            for j in range(k):
+                evs += [['base', ['adv', tmo]], ['base', ['expire', j]], ['start', ['timer', j]], ['acquire', j + 1],
+                        ['finish', j + 1, 'driver' if j == k - 1 else 'ok']]
+            out.append(evs)
     # oversized packet: raises before the lock
     out.append([O, ['start', ['user', 0, 0x90, [0] * 31, [7], 100]], ['start', U(1)], ['acquire', 1], ['finish', 1, 'ok']])
     return [{'lock_events': e} for e in out]
@@ -414,7 +443,7 @@ def gen_lock_scenario(rng):
     for _ in range(rng.randint(4, 16)):
         x = rng.random()
         if holder is not None and x < 0.3:
-            evs.append(['finish', holder, rng.choice(['ok', 'ok', 'ok', 'driver', 'sentcb'])])
+            evs.append(['finish', holder, rng.choice(['ok', 'ok', 'ok', 'driver', 'sentcb', 'linkerr'])])
             holder = None
         elif holder is None and waiting and x < 0.55:
             i = rng.choice(waiting)
@@ -436,6 +465,8 @@ def gen_lock_scenario(rng):
             n_act += 1
         elif x < 0.96:
             evs.append(['base', ['recv', 0x90, rng.choice([[7], [7, 8, 1], [9], [1]])]])
+        elif holder is None and x < 0.98:
+            evs.append(['base', ['open', True]])        # (ignored while a link is open)
         else:
             evs.append(['base', rng.choice([['linkerr'], ['setnr', False], ['setnr', True]])])
     return {'lock_events': evs}
@@ -467,7 +498,10 @@ def check_lock_scenario(case):
     if res['blocked']:
         return res, {'class': 'send_lock_scenario_blocked', 'case': case, 'expected': 'no thread blocks for ever',
                      'observed': res['blocked'], 'detail': res['blocked']}
-    return res, None
+    f = judge(case, res['story'], res)
+    if f:
+        f['detail'] += ' | story of the scenario: %s' % json.dumps(res['story'])
+    return res, f
 
 
 # ------------------------------------------------------------------ events -> Coq
@@ -699,7 +733,7 @@ def tie(ctx):
     lterms, lexp = [], []
     for c in lcases:
         lres = lk.run_scenario(c['lock_events'], flush=False)
-        lterms.append(lock_term(c['lock_events']))
+        lterms.append(lock_term(c['lock_events'], lres))
         lexp.append(lock_impl_obs(lres) if not lres['blocked'] else [-9])
     nld = 0
     for bi, mv in coqrun.compare_blocks(LHEADER, lterms, lexp, tag='c10k', shard=max(8, len(lterms) // 16 + 1)):
@@ -754,8 +788,12 @@ def tie(ctx):
 
 # ------------------------------------------------------------------ oracle (property text; own bookkeeping, no model)
 def check_case(case):
-    events = case['events']
-    res = drv.run_events(events)
+    return judge(case, case['events'], drv.run_events(case['events']))
+
+
+def judge(case, events, res):
+    """The property text on what the links saw, for the history `events` (for the send-lock scenarios: the story of what
+    happened, in the order it happened)."""
 
     def fail(cls, detail, expected=None, observed=None):
         return {'class': cls, 'case': case, 'expected': expected,
@@ -821,6 +859,11 @@ def check_case(case):
             now += e[1]
         elif k == 'flushall':
             now += 5000
+        elif k == 'txfail':
+            # the driver raised on the FIRST transmission of this request: the caller saw an exception; whether the
+            # request is retried afterwards is not prescribed
+            reqs[e[1]]['first_failed'] = True
+    final_flush = bool(events) and events[-1][0] == 'flushall' and link
     # A. nothing on a closed / replaced link (all packets, also those the library sends by itself)
     for t in res['tx']:
         if t['closed'] or not t['current']:
@@ -846,6 +889,8 @@ def check_case(case):
                 return fail('request_transmitted_in_later_session',
                             'request %d was sent in session %d and is transmitted on the link of session %d at t=%d (event %d)'
                             % (rid, q['sess'], t['sess'], t['t'], t['ev']), expected=q['sess'], observed=t)
+        if q.get('first_failed'):
+            continue
         if not txs or txs[0]['ev'] != q['ev']:
             return fail('request_not_transmitted_when_sent', 'request %d' % rid, observed=txs)
         if not q['retry']:
@@ -862,6 +907,15 @@ def check_case(case):
                 return fail('retransmitted_after_answer' if why in ('recv', 'recvcb') else 'retransmitted_after_link_closed',
                             'request %d stopped being pending at event %d (%s) and is transmitted again at t=%d (event %d)'
                             % (rid, q['stop_ev'], why, late[0]['t'], late[0]['ev']), observed=late)
+        # F. still pending when the history ends with every existing timer firing once more (5 s later, link open):
+        #    it must be retransmitted then — "for as long as the link is open until a matching packet is received"
+        if final_flush and q['stop_ev'] is None and q['sup_t'] is None and q['sess'] == sess:
+            last = len(events) - 1
+            if not any(t['ev'] == last for t in txs):
+                return fail('pending_request_no_longer_retried',
+                            'request %d (sent at event %d, session %d) was never answered, its link is still open, and when '
+                            'every timer fires again it is not retransmitted: its retries have stopped' % (rid, q['ev'], sess),
+                            expected='a retransmission during the final flush', observed=txs)
         # E. with ideal timers: exactly at t0 + k*T while pending
         if case.get('ideal'):
             end = q['mand_end'] if q['mand_end'] is not None else now
